@@ -101,25 +101,51 @@ Section C23.
     In r rows /\ ov = raw_get V (c_default old) (c_data old) r /\ nv = col_set (col_convert ov) /\
     strict_equal ov (col_convert ov) = false.
   Proof. exact (changes_spec V col_convert col_set strict_equal). Qed.
+
+  (* The full statement, for every conversion whose column stores converted values unchanged.  On the current source
+     (after commit 31c0c3e) both facts hold on the implementation for every column type and every generated value:
+     the check evaluates them on each cell and reports any exception as a violation. *)
+  Theorem C23_modify_converts_all :
+    (forall v, col_set (col_convert v) = col_convert v) ->
+    (forall v, strict_equal v (col_convert v) = true -> col_set v = col_convert v) ->
+    C23_statement.
+  Proof.
+    intros H1 H2 size0 d t c d' tb old r Hm Ht Hc Hin.
+    apply (C23_modify_converts size0 d t c d' tb old r Hm Ht Hc Hin); [apply H1 | apply H2].
+  Qed.
 End C23.
 
-(* ---- The unchanged code violates the full statement: ReferenceListColumn.set re-parses the alt-text "[n]" that
-   its own conversion produced for an int n >= 2^31, so the cell ends up as the list [n] and not as the alt-text.
-   (mini_reflist_* in the model file is the miniature of that behaviour; the check reproduces it on the engine.) *)
+(* ---- Why the hypothesis is there: with the `set` ReferenceListColumn had before commit 31c0c3e (it re-parsed the
+   alt-text "[n]" that its own conversion produces for an int n >= 2^31) the full statement fails: the cell ends up as
+   the list [n] and not as the alt-text.  The check keeps the engine witness of that defect in its corpus. *)
 Definition c23_doc : doc tv :=
   [([84%Z], {| t_rows := [1%nat]; t_cols := [([65%Z], {| c_default := TNone; c_data := [TNone; TInt 2147483648] |})] |})].
 
-Theorem C23_refuted :
-  ~ C23_statement tv mini_reflist_convert mini_reflist_set tv_eqb TNone.
+Theorem C23_hypothesis_needed :
+  ~ C23_statement tv mini_reflist_convert mini_reflist_set_old tv_eqb TNone.
 Proof.
   intro H.
   specialize (H 2%nat c23_doc [84%Z] [65%Z]
-                (match modify_column tv mini_reflist_convert mini_reflist_set tv_eqb TNone 2 c23_doc [84%Z] [65%Z] with
+                (match modify_column tv mini_reflist_convert mini_reflist_set_old tv_eqb TNone 2 c23_doc [84%Z] [65%Z] with
                  | Ok d' => d' | Err _ => [] end)
                 {| t_rows := [1%nat]; t_cols := [([65%Z], {| c_default := TNone; c_data := [TNone; TInt 2147483648] |})] |}
                 {| c_default := TNone; c_data := [TNone; TInt 2147483648] |} 1%nat
                 eq_refl eq_refl eq_refl (or_introl eq_refl)).
   vm_compute in H. discriminate H.
+Qed.
+
+(* ... and with the repaired `set` (short ints only) the miniature satisfies both facts for EVERY value, hence the
+   full statement for every document and column content. *)
+Theorem C23_repaired_reflist : C23_statement tv mini_reflist_convert mini_reflist_set tv_eqb TNone.
+Proof.
+  apply C23_modify_converts_all.
+  - intro v. destruct v as [|n|s|l]; try reflexivity.
+    + cbn. destruct (n =? 0)%Z; [reflexivity|]. destruct (short n) eqn:E; [reflexivity|].
+      cbn. rewrite E, andb_false_r. reflexivity.
+    + cbn. destruct (is_bracketed s) as [n|] eqn:Eb; [|cbn; rewrite Eb; reflexivity].
+      destruct ((0 <? n)%Z && short n)%bool eqn:E; [reflexivity|]. cbn. rewrite Eb, E. reflexivity.
+  - intros v Hse. destruct v as [|n|s|l]; try reflexivity.
+    exfalso. cbn in Hse. destruct (n =? 0)%Z; [discriminate|]. destruct (short n); discriminate.
 Qed.
 
 (* Non-vacuity of C23_modify_converts: a column [None, 5, 0, "x"] converted by the miniature conversion; the
